@@ -72,6 +72,15 @@ class ProgAssertion(AssertionError):
         self.tag = tag
 
 
+class ProgAssertionZ(ProgAssertion):
+    """A falsy privileged exception (an `AssertionError` subclass that reports no items)."""
+    def __bool__(self):
+        return False
+
+    def __len__(self):
+        return 0
+
+
 class ProgSystemExit(SystemExit):
     def __init__(self, serial, tag=""):
         super().__init__(serial, tag)
@@ -88,11 +97,11 @@ class ProgKeyboardInterrupt(KeyboardInterrupt):
 
 PROG_TYPES = {"E": ProgError, "A": ProgErrorA, "B": ProgErrorB, "Z": ProgErrorZ, "K": ProgKeyError,
               "assert": AssertionError, "exit": SystemExit, "kbd": KeyboardInterrupt,
-              "assert_sub": ProgAssertion, "exit_sub": ProgSystemExit,
+              "assert_sub": ProgAssertion, "assert_z": ProgAssertionZ, "exit_sub": ProgSystemExit,
               "kbd_sub": ProgKeyboardInterrupt}
 PROG_CLASSES = (ProgError, ProgKeyError, ProgAssertion, ProgSystemExit, ProgKeyboardInterrupt)
 PRIVILEGED = (SystemExit, KeyboardInterrupt, AssertionError)
-PRIVILEGED_NAMES = ("AssertionError", "SystemExit", "KeyboardInterrupt", "ProgAssertion",
+PRIVILEGED_NAMES = ("AssertionError", "SystemExit", "KeyboardInterrupt", "ProgAssertion", "ProgAssertionZ",
                     "ProgSystemExit", "ProgKeyboardInterrupt")
 
 
